@@ -67,3 +67,14 @@ Qed.
    model of handleLoop" and "the observation satisfies the property" coincide *)
 Lemma probe_agrees_here w q : probe_agrees after_tunnel_here w q = probe_ok w q.
 Proof. destruct w, q; vm_compute; reflexivity. Qed.
+
+(* nothing queued toward a slow peer is thrown away when the proxy closes *)
+Lemma proxy_close_is_graceful q : proxy_close_discards dial_sets_linger q = 0%N.
+Proof. reflexivity. Qed.
+
+Lemma linger0_discards q : proxy_close_discards true q = q.
+Proof. reflexivity. Qed.
+
+(* no tunnel on a shaped listener waits for another one's connection *)
+Lemma tunnels_do_not_wait : tunnel_may_wait_for_another shaped_copy_unlocked = false.
+Proof. reflexivity. Qed.
